@@ -65,6 +65,7 @@ func init() {
 		)
 
 		erange.DeclareFieldRules(run, "RANGE-A", stageA)
+		portableWidthRule(c, stageA[0]) // the shared select/swap helpers keep all 64 bits on 32-bit targets
 		exp := expRule(run, len(stageA))
 		bi := run.Rule("DT-batchinvert", "BatchInvert is Montgomery's trick with zero skipping, uniform over all indices", 4*len(stageA))
 		run.Rule("SIB-uniform", "limb-wise operations compute limb i from limbs i by one template for all i", 8*len(stageA))
